@@ -295,6 +295,7 @@ type vcEntry struct {
 	member bool
 	void   bool
 	inst   bool
+	out    bool     // a field of a result object
 	stores []string // "ty/key/grp" of the service outputs of the same call (godi's siblings)
 }
 
@@ -421,6 +422,7 @@ func (f *vcRef) add(q *vcReq) (bool, string) {
 	type out struct {
 		e        vcEntry
 		mismatch bool
+		bothTags bool // a result-object field with a name and a group tag is refused (d35d8b0)
 	}
 	var outs []out
 	base := vcEntry{life: q.life, reg: q.ctor}
@@ -428,8 +430,8 @@ func (f *vcRef) add(q *vcReq) (bool, string) {
 	case q.form == "out":
 		for _, fl := range q.fields {
 			e := base
-			e.ty, e.key, e.grp = fl.ty, vcNameKey(fl.name), fl.grp
-			outs = append(outs, out{e: e})
+			e.ty, e.key, e.grp, e.out = fl.ty, vcNameKey(fl.name), fl.grp, true
+			outs = append(outs, out{e: e, bothTags: fl.name != 0 && fl.grp != 0})
 		}
 	case q.form != "inst" && len(q.rets) > 1:
 		for i, t := range q.rets {
@@ -460,6 +462,9 @@ func (f *vcRef) add(q *vcReq) (bool, string) {
 	trial := f.clone()
 	for _, o := range outs {
 		o.e.stores = stores
+		if o.bothTags {
+			return false, "fieldtags"
+		}
 		if o.mismatch {
 			return false, "mismatch"
 		}
@@ -622,9 +627,9 @@ type vcRun struct {
 	acc     int
 	rej     int
 	nontriv int
-	// Known finding D25: an output of a multi-output registration that is removed keeps being
-	// produced. Unless VERIF_COLL_GHOSTS=1 the generators do not register an identity again after it
-	// was removed from a multi-output registration (conservatively: by what they generated).
+	// D25 (fixed in /repo 852a640): an output of a multi-output registration that was removed kept
+	// being produced. With VERIF_COLL_GHOSTS=0 the generators do not register an identity again after
+	// it was removed from a multi-output registration (conservatively: by what they generated).
 	ghosts   bool
 	multiOut map[string]bool
 	burned   map[string]bool
@@ -1443,6 +1448,22 @@ func (r *vcRun) execBuild(line string, p int) {
 		r.fail("C20", fmt.Sprintf("Build of the collection filled through modules: %s, of the twin: %s", oa, ob))
 	}
 	r.checkRunsOnlyRegistered()
+	// C04,C17: every registered result-object field is resolvable under exactly its identity
+	done := map[string]bool{}
+	for _, e := range r.ref.list {
+		if !e.out {
+			continue
+		}
+		line := fmt.Sprintf("c pget %d %d %s", p, e.ty, e.key)
+		if e.member {
+			line = fmt.Sprintf("c pgroup %d %d %d", p, e.ty, e.grp)
+		}
+		if !done[line] {
+			done[line] = true
+			r.stats["out_fields_resolved"]++
+			r.exec(line)
+		}
+	}
 }
 
 // a constructor may run only if its registration was part of a registry some Build used
@@ -1493,16 +1514,19 @@ func (r *vcRun) execPGet(line string, p, ty int, key string) {
 	if snap == nil {
 		return
 	}
-	want := "notfound"
+	want, props := "notfound", "C17"
 	if e, ok := snap.find(ty, key); ok {
 		want = "ok " + strconv.Itoa(e.reg)
 		r.stats["provider_found"]++
+		if e.out {
+			props = "C04,C17"
+		}
 	}
 	if got != want {
 		if by, ok := snap.shadowedBy(ty, key); ok {
-			r.fail("C17", fmt.Sprintf("removed output of a multi-output registration still takes effect: provider %d resolves (%d,%s) as %q, its registration says %q; constructor %d, one of whose outputs was registered under this identity and removed before Build, still produces it", p, ty, key, got, want, by))
+			r.fail(props, fmt.Sprintf("removed output of a multi-output registration still takes effect: provider %d resolves (%d,%s) as %q, its registration says %q; constructor %d, one of whose outputs was registered under this identity and removed before Build, still produces it", p, ty, key, got, want, by))
 		} else {
-			r.fail("C17", fmt.Sprintf("provider %d resolves (%d,%s) as %q; the registry it was built from says %q (collection now: %s)", p, ty, key, got, want, r.ref.String()))
+			r.fail(props, fmt.Sprintf("provider %d resolves (%d,%s) as %q; the registry it was built from says %q (collection now: %s)", p, ty, key, got, want, r.ref.String()))
 		}
 	}
 	if gb := r.pget(r.b, p, ty, key); gb != got {
@@ -1548,11 +1572,15 @@ func (r *vcRun) execPGroup(line string, p, ty, g int) {
 		return
 	}
 	var ps []string
+	props := "C17"
 	for _, e := range snap.members(ty, g) {
 		ps = append(ps, strconv.Itoa(e.reg))
+		if e.out {
+			props = "C04,C17"
+		}
 	}
 	if want := "ok [" + strings.Join(ps, " ") + "]"; got != want {
-		r.fail("C17", fmt.Sprintf("provider %d resolves group (%d,%d) as %q; the registry it was built from says %q", p, ty, g, got, want))
+		r.fail(props, fmt.Sprintf("provider %d resolves group (%d,%d) as %q; the registry it was built from says %q", p, ty, g, got, want))
 	}
 	if gb := r.pgroup(r.b, p, ty, g); gb != got {
 		r.fail("C20", fmt.Sprintf("provider built from modules resolves group (%d,%d) as %q, the twin's as %q", ty, g, got, gb))
@@ -1580,13 +1608,6 @@ func (r *vcRun) allQueries() {
 func (r *vcRun) sweep(p int) {
 	for t := vcFirst; t <= vcLast; t++ {
 		for _, k := range []string{"-", "n1", "n2"} {
-			// A result-object field with both a name and a group tag is registered under its name but
-			// its singleton instance is stored under (type, name, group) and never found again: a
-			// resolution defect outside C17/C20 (see FINDINGS.md). Such identities are not resolved here.
-			if e, ok := r.snaps[p].find(t, k); ok && e.grp != 0 {
-				r.stats["skipped_name_and_group_field"]++
-				continue
-			}
 			r.exec(fmt.Sprintf("c pget %d %d %s", p, t, k))
 		}
 		r.exec(fmt.Sprintf("c pgroup %d %d 1", p, t))
@@ -1940,7 +1961,7 @@ func TestVerifColl(t *testing.T) {
 	fo, wo := open("ops.txt")
 	fb, wb := open("obs.txt")
 	fm, wm := open("mon.txt")
-	r := &vcRun{ops: wo, obs: wb, mon: wm, stats: map[string]int{}, ghosts: os.Getenv("VERIF_COLL_GHOSTS") == "1"}
+	r := &vcRun{ops: wo, obs: wb, mon: wm, stats: map[string]int{}, ghosts: os.Getenv("VERIF_COLL_GHOSTS") != "0"}
 	rng := rand.New(rand.NewSource(seed))
 	start := time.Now()
 	if d := os.Getenv("VERIF_REPLAY"); d != "" {
@@ -1971,47 +1992,4 @@ func TestVerifColl(t *testing.T) {
 	js, _ := json.MarshalIndent(r.stats, "", " ")
 	os.WriteFile(filepath.Join(out, "stats.json"), js, 0o644)
 	t.Logf("collection harness: %d scenarios, %d lines, %d monitor failures", r.scen, r.nline, r.monBad)
-}
-
-// TestVerifCollKnown replays the witnesses of the known findings of this slice with the monitors on
-// (no model comparison): the check reports them as KNOWN-FINDING as long as they still fail.
-func TestVerifCollKnown(t *testing.T) {
-	out := os.Getenv("VERIF_OUT")
-	if out == "" {
-		t.Skip("VERIF_OUT not set")
-	}
-	open := func(name string) (*os.File, *bufio.Writer) {
-		f, err := os.Create(filepath.Join(out, name))
-		if err != nil {
-			t.Fatal(err)
-		}
-		return f, bufio.NewWriter(f)
-	}
-	fo, wo := open("ops.txt")
-	fb, wb := open("obs.txt")
-	fm, wm := open("mon.txt")
-	r := &vcRun{ops: wo, obs: wb, mon: wm, stats: map[string]int{}, ghosts: true}
-	for _, life := range []string{"s", "c"} {
-		// D25: (A,B) registered by one constructor, A removed, A registered again
-		r.exec("c new")
-		r.exec("c add " + life + " ctor=1 form=fn prim=4 name=0 group=0 optbad=0 valbad=0 as=- rets=4,5 fields=-")
-		r.exec("c rm 4")
-		r.exec("c add " + life + " ctor=2 form=fn prim=4 name=0 group=0 optbad=0 valbad=0 as=- rets=4 fields=-")
-		r.exec("c build 1")
-		r.exec("c pget 1 5 -")
-		r.exec("c pget 1 4 -")
-	}
-	r.exec("c new")
-	r.scen--
-	wo.Flush()
-	wb.Flush()
-	wm.Flush()
-	fo.Close()
-	fb.Close()
-	fm.Close()
-	r.stats["scenarios"] = r.scen
-	r.stats["nontrivial"] = r.scen
-	r.stats["monitor_failures"] = r.monBad
-	js, _ := json.MarshalIndent(r.stats, "", " ")
-	os.WriteFile(filepath.Join(out, "stats.json"), js, 0o644)
 }
